@@ -293,7 +293,7 @@ def mt1_violation_terms(h, Xc, Y, W, al, fit_intercept):
 
 
 def u_multitask_run(h, X, fit_intercept, sparse=False, warm=False, budget=(2, 1), T=1, want=('certificate', 'history'),
-                    Y_concrete=None):
+                    Y_concrete=None, explicit_zeros=False, p0=1):
     """bounded run of the real MultiTaskBCD with symbolic alpha, tol and (one task) symbolic Y / warm start -- row norms are
     absolute values, piecewise linear -- or (several tasks) catalogue targets: tolerance stops certify the returned point,
     the history describes the run"""
@@ -307,7 +307,7 @@ def u_multitask_run(h, X, fit_intercept, sparse=False, warm=False, budget=(2, 1)
     pen = h.penalty(Pm.L2_1, alpha=al)
     df = h.datafit(Dm.QuadraticMultiTask)
     Xd = h.const(Xc)
-    Xa = h.csc(Xd) if sparse else Xd
+    Xa = (h.csc(Xd, pattern=[[1] * p for _ in range(n)]) if explicit_zeros else h.csc(Xd)) if sparse else Xd
     nw = p + (1 if fit_intercept else 0)
     W0 = XW0 = None
     if warm:
@@ -317,10 +317,14 @@ def u_multitask_run(h, X, fit_intercept, sparse=False, warm=False, budget=(2, 1)
                           for t in range(T)] for i in range(n)])
         else:
             XW0 = Xc @ np.asarray(W0[:p], dtype=float) + (np.asarray(W0[p], dtype=float) if fit_intercept else 0.0)
-    sol = S.MultiTaskBCD(max_iter=budget[0], max_epochs=budget[1], p0=1, tol=tol, fit_intercept=fit_intercept, use_acc=False)
+    sol = S.MultiTaskBCD(max_iter=budget[0], max_epochs=budget[1], p0=p0, tol=tol, fit_intercept=fit_intercept, use_acc=False)
     W, obj, sc = sol._solve(Xa, Y, df, pen, W0, XW0)
     for j in range(nw):
         h.observe('W%d' % j, W[j, 0])
+        h.ensure('finite-coef[%d]' % j, h.is_finite(W[j, 0]))
+    for j in range(p):
+        if not np.any(Xc[:, j]):
+            h.ensure('zero-column-coef-is-zero[%d]' % j, h.eq(W[j, 0], 0))
     if 'certificate' in want:
         stopped = h.le(sc, tol)
         if (h.mode == 'sym' and bool(stopped)) or (h.mode != 'sym' and stopped.strict):
